@@ -91,7 +91,9 @@ def wrong_value(rng, ty):
 
 
 def jtext(v):
-    return json.dumps(v, separators=(",", ":"), ensure_ascii=False)
+    """compact JSON as serde-json-wasm writes it (control characters as \\u00XX with upper-case hex digits)"""
+    t = json.dumps(v, separators=(",", ":"), ensure_ascii=False)
+    return re.sub(r"\\u00([0-9a-f]{2})", lambda m: "\\u00" + m.group(1).upper(), t)
 
 
 # ---------------------------------------------------------------------------------------------
@@ -130,6 +132,8 @@ def gen_args(rng, maxn=3):
     # sometimes two adjacent arguments of the same type (swap detection)
     if len(out) >= 2 and rng.random() < 0.4:
         out[1]["ty"] = out[0]["ty"]
+        if "t" in out[1]["ty"] or out[1]["ty"]["p"][0][0] == "Addr":
+            out[1].pop("attrs", None)
     return out
 
 
